@@ -33,6 +33,7 @@ func main() {
 			os.Exit(3)
 		}
 		fn(os.Args[3:])
+		cleanupScratch()
 		os.Exit(0)
 	}
 	if len(os.Args) < 2 {
